@@ -639,6 +639,9 @@ pub fn generate(seed: u64, case: u64, max_steps: usize) -> Ran {
                 let batch = vec![first, CMsg::BankSend { to: any, coins: vec![(d, Uint128::new(a / 2 + 1))] }];
                 pending.push_back(Step { h, t, s: adm, op: Op::Inc { sp: Arg::Id(g), c: (d, Uint128::new(a)), e: None } });
                 pending.push_back(Step { h, t, s: adm, op: Op::SetPerm { sp: Arg::Id(g), p: Perm { d: true, r: false, u: false, w: true } } });
+                // two sends in one call, each within the grant, together beyond it: the whole call must fail
+                let half = CMsg::BankSend { to: any, coins: vec![(d, Uint128::new(a / 2 + 1))] };
+                pending.push_back(Step { h, t, s: g, op: Op::Execute { msgs: vec![half.clone(), half] } });
                 pending.push_back(Step { h, t, s: g, op: Op::Execute { msgs: batch.clone() } });
                 pending.push_back(Step { h, t, s: g, op: Op::Execute { msgs: batch } });
                 continue;
